@@ -235,15 +235,18 @@ def planXP (h : Heap) (p : Nat) (termKind : Kind) : Plan :=
   | none => some []
   | some hd => some [.setPeng false p hd]
 
-/-- `should_try_another_subject(lemma, iSubj)` -/
+/-- `should_try_another_subject(lemma, iSubj)` (PhraseEn.py / PhraseFr.py, since fd8fe7a) -/
 def shouldTryAnotherSubject (h : Heap) (lang : Lang) (p : Nat) (lem : Str) (iSubj : Nat) : Bool :=
+  -- `any(e.isA("NP","N","CP","Pro") for e in self.elements[iSubj+1:])`
+  let another := ((h.kids p).drop (iSubj + 1)).any (fun x => h.isA x [.NP, .N, .CP, .Pro])
   match lang with
-  | .en => lem = s "that"
+  | .en => lem = s "that" || ((lem = s "which" || lem = s "who" || lem = s "whom") && another)
   | .fr => lem = s "que" || lem = s "où" || lem = s "dont" ||
-      (lem = s "qui" && iSubj > 0 &&
+      ((lem = s "qui" || lem = s "lequel") && iSubj > 0 &&
         (match (h.kids p)[iSubj - 1]? with
          | some e => h.kind e = .P
-         | none => false))
+         | none => false)) ||
+      ((lem = s "auquel" || lem = s "duquel") && another)
 
 /-- S / SP branch (Phrase.py:190-235) -/
 def planS (h : Heap) (p : Nat) : Plan :=
